@@ -19,10 +19,9 @@ CAPS = {
 LISTLIKE_NAMES = {"list", "tuple", "set", "frozenset"}
 NEEDS = {"truth": "len", "builtin:len": "len", "builtin:tuple": "tuple", "builtin:list": "list", "builtin:dict": "dict", "iterate": "iterate",
          "getitem": "getitem", "contains": "contains", "builtin:sorted": "sorted", "builtin:enumerate": "enumerate"}
-GUARD_ONLY = {"builtin:str", "builtin:repr", "builtin:format", "builtin:float", "builtin:int", "format", "builtin:hash",
+GUARD_ONLY = {"builtin:hasattr", "builtin:isinstance", "getattr:__class__", "builtin:str", "builtin:repr", "builtin:format", "builtin:float", "builtin:int", "format", "builtin:hash",
               "builtin:next", "builtin:iter", "builtin:bool", "builtin:vars", "builtin:dir", "builtin:getattr"}
-IGNORED = {"compare": "equality between a name and its original name: both are agent-made strings after naming",
-           "builtin:hasattr": "hasattr only swallows AttributeError; treated as an observation"}
+IGNORED = {"compare": "equality between a name and its original name: both are agent-made strings after naming"}
 
 
 def collector_scope(ctx: Ctx):
@@ -123,6 +122,11 @@ class Pins:
                         return set()
                     out = set(caps) if out is None else out & caps
                 return out or set()
+            if fn == "issubclass" and len(test.args) == 2 and self.type_linked(test.args[0], S, fi):
+                names = [norm(x) for x in (test.args[1].elts if isinstance(test.args[1], ast.Tuple) else [test.args[1]])]
+                if names and all(nme in ("Exception", "BaseException") for nme in names):
+                    return set(CAPS["exception"])
+                return set()
             if fn == "hasattr" and norm(test.args[0]) == s_txt and len(test.args) == 2 and isinstance(test.args[1], ast.Constant):
                 return {"hasattr:" + str(test.args[1].value)}
         return set()
@@ -143,16 +147,45 @@ class Pins:
         if isinstance(S, ast.Call) and norm(S.func) in ("enumerate", "reversed", "zip") and S.args and \
                 all({"iterate", "tuple"} & self.caps(a_, node, fi, depth + 1) for a_ in S.args if not isinstance(a_, ast.Constant)):
             out |= {"iterate", "list", "tuple", "enumerate"}
+        if isinstance(S, ast.Call) and depth < 4:
+            # a repo helper that returns a pinned expression of its argument, or None (use sites test `is not None`)
+            tg = self.ctx.types.resolve_call(S, fi)
+            if len(tg.repo) == 1 and not tg.by_name and not tg.ext and not tg.ctor:
+                g_ = tg.repo[0]
+                rets = [r.value for r in self.ctx.types.nodes_in(g_, ast.Return) if r.value is not None
+                        and not (isinstance(r.value, ast.Constant) and r.value.value is None)]
+                if rets and not g_.is_wrapped:
+                    acc = None
+                    for rv in rets:
+                        c_ = self.caps(rv, rv, g_, depth + 1)
+                        acc = c_ if acc is None else acc & c_
+                    out |= acc or set()
         if isinstance(S, ast.Name):
             binds = self.ctx.types.local_bindings(fi, S.id)
             # single local alias of a pinned expression
             if len(binds) == 1 and binds[0][0] == "assign" and binds[0][1][1] is not None and binds[0][1][2] is None:
-                out |= self.caps(binds[0][1][1], binds[0][1][1], fi, depth + 1)
+                src = binds[0][1][1]
+                got = self.caps(src, src, fi, depth + 1)
+                if isinstance(src, ast.Call) and self._may_return_none(src, fi):
+                    # the helper answers None when there is nothing to read: only uses behind `S is not None` are pinned
+                    nn = any((norm(c_) == "%s is not None" % S.id and pol) or (norm(c_) == "%s is None" % S.id and not pol)
+                             for c_, pol in paths.conditions(self.ctx.prog, node, fi))
+                    if not nn:
+                        got = set()
+                out |= got
         for test, pol in paths.conditions(self.ctx.prog, node, fi):
             out |= self.from_test(test, pol, S, fi)
         if isinstance(S, ast.Name) and depth < 3 and any(k == "param" for k, _ in self.ctx.types.local_bindings(fi, S.id)):
             out |= self.param_caps(fi, S.id, depth)
         return out
+
+    def _may_return_none(self, call, fi) -> bool:
+        tg = self.ctx.types.resolve_call(call, fi)
+        for g_ in tg.repo:
+            for r in self.ctx.types.nodes_in(g_, ast.Return):
+                if r.value is None or (isinstance(r.value, ast.Constant) and r.value.value is None):
+                    return True
+        return False
 
     def param_caps(self, fi, pname, depth) -> set:
         key = (self.ctx.types.fkey(fi), pname)
